@@ -58,7 +58,7 @@ def h8(obj) -> str:
 
 def jsonable(o, depth=0):
     """Best-effort conversion of a case to JSON (repr for the rest)."""
-    if depth > 12:
+    if depth > 80:
         return repr(o)
     if o is None or isinstance(o, (bool, int, str)):
         if isinstance(o, int) and not isinstance(o, bool) and abs(o) > 2**62:
@@ -296,6 +296,9 @@ def finish(mod, tier, seed, m, problems, wall):
     known = [k for k in load_known() if k["property"] == pid]
     known_open = {k["key"]: k for k in known if k.get("status") == "known"}
     os.makedirs(REPLAY_DIR, exist_ok=True)
+    for fn in os.listdir(REPLAY_DIR):
+        if fn.startswith(pid + "_"):
+            os.remove(os.path.join(REPLAY_DIR, fn))
     new_viol = []
     hits = {}
     for v in m["violations"]:
@@ -305,7 +308,7 @@ def finish(mod, tier, seed, m, problems, wall):
             new_viol.append(v)
     lines = []
     for key, v in sorted(hits.items()):
-        lines.append(f"KNOWN-FINDING: property={pid} {key}: {known_open[key]['what']}")
+        lines.append(f"KNOWN-FINDING: property={pid} {key}: {known_open[key]['what'][:260]}")
     seen_keys = set()
     nrep = 0
     for v in new_viol:
